@@ -65,8 +65,11 @@ impl Engine for C05 {
     fn rule(&self) -> String {
         "every library of the space is imported; for every note (and every missing name that some link resolves to) the set of (linking note, line of the linking block) reported by Graph::get_block_references_to + get_inline_references_to, by textDocument/references and the counts shown by textDocument/inlayHint must equal the set computed by the independent link scanner + resolver over all note texts (external urls excluded, .md ignored, resolution relative to the linking note's directory). non-trivial = the library contains at least one internal link that resolves to an existing note".into()
     }
-    fn bound(&self, _tier: Tier) -> String {
-        format!("both tiers: {}", lib_bound(Tier::Thorough))
+    fn bound(&self, tier: Tier) -> String {
+        match tier {
+            Tier::Quick => lib_bound(Tier::Thorough),
+            Tier::Thorough => format!("{}; plus every note (1, 2, d/3, d/4, dx/5) as owner and two link blocks over all 16 placements x all 6 kinds x {{reg, wiki}} x all url forms", lib_bound(Tier::Thorough)),
+        }
     }
     fn assumptions(&self) -> Vec<String> {
         let mut a = lib_assumptions();
@@ -74,9 +77,8 @@ impl Engine for C05 {
         a
     }
     fn enumerate(&self, tier: Tier, emit: &mut dyn FnMut(&str)) {
-        // the deep space runs in a few seconds, so both tiers use it
-        let _ = tier;
-        libspace::enumerate(true, &[""], &mut |c| emit(&c.to_string()));
+        // the deep space runs in a few seconds, so the quick tier uses it; thorough goes one level deeper
+        libspace::enumerate_level(if tier == Tier::Thorough { 2 } else { 1 }, &[""], &mut |c| emit(&c.to_string()));
     }
     fn features(&self, case: &str) -> Vec<String> {
         LibCase::parse(case).features()
@@ -211,7 +213,7 @@ impl Engine for C06 {
     fn bound(&self, tier: Tier) -> String {
         match tier {
             Tier::Quick => format!("refs_extension \"\": {}; refs_extension \".md\": {}", lib_bound(Tier::Thorough), lib_bound(Tier::Quick)),
-            Tier::Thorough => format!("both refs_extension settings: {}", lib_bound(Tier::Thorough)),
+            Tier::Thorough => format!("both refs_extension settings: {}; refs_extension \"\" also with every note as owner and two link blocks over all 16 placements x all 6 kinds x {{reg, wiki}} x all url forms", lib_bound(Tier::Thorough)),
         }
     }
     fn assumptions(&self) -> Vec<String> {
@@ -220,7 +222,7 @@ impl Engine for C06 {
         a
     }
     fn enumerate(&self, tier: Tier, emit: &mut dyn FnMut(&str)) {
-        libspace::enumerate(true, &[""], &mut |c| emit(&c.to_string()));
+        libspace::enumerate_level(if tier == Tier::Thorough { 2 } else { 1 }, &[""], &mut |c| emit(&c.to_string()));
         libspace::enumerate(tier == Tier::Thorough, &[".md"], &mut |c| emit(&c.to_string()));
     }
     fn features(&self, case: &str) -> Vec<String> {
